@@ -29,6 +29,10 @@ pub struct Case {
     pub b: (Option<u32>, Option<u32>),
     pub link_delay_ms: u8,
     pub calls: Vec<Call>,
+    /// QUIC idle timeout (ms) on both ends, shorter than handlers and deadlines may be; keep-alives
+    /// (a quarter of it) keep the connection up, so it must not influence any request deadline
+    #[serde(default)]
+    pub short_idle_ms: Option<u16>,
 }
 
 const MS: u64 = 1_000_000;
@@ -45,8 +49,10 @@ pub fn check(case: &Case, obs: &mut Obs) -> Result<(), Fail> {
         // long-lived connection regardless of how long handlers sleep
         for s in [&mut sa, &mut sb] {
             let q = s.config.quic.as_mut().unwrap();
-            q.max_idle_timeout_ms = Some(60_000);
-            q.keep_alive_interval_ms = Some(5_000);
+            // normally long-lived whatever the handlers do; optionally an idle timeout shorter than handlers
+            // and deadlines, kept alive by keep-alives (it must not influence any request deadline)
+            q.max_idle_timeout_ms = Some(case.short_idle_ms.map_or(60_000, |v| v.max(800) as u64));
+            q.keep_alive_interval_ms = Some(case.short_idle_ms.map_or(5_000, |v| v.max(800) as u64 / 4));
         }
         let a = sim.node_with(sa)?;
         let b = sim.node_with(sb)?;
@@ -90,7 +96,9 @@ pub fn check(case: &Case, obs: &mut Obs) -> Result<(), Fail> {
                 req.headers_mut().insert("timeout".into(), h.clone());
             }
             let t0 = sim.fabric.now_us() * 1000;
-            let staller = c.stall.map(|(at, len)| tokio::spawn(async move {
+            // (a stall longer than a short idle timeout would simply kill the connection: not combined)
+            let stall = if case.short_idle_ms.is_some() { None } else { c.stall };
+            let staller = stall.map(|(at, len)| tokio::spawn(async move {
                 sleep_ms(at as u64).await;
                 tokio::time::advance(std::time::Duration::from_millis(len as u64)).await;
             }));
@@ -100,7 +108,7 @@ pub fn check(case: &Case, obs: &mut Obs) -> Result<(), Fail> {
             if let Some(h) = staller {
                 // with a stall only the direction "a handler needing less is answered normally" is decided
                 h.abort();
-                let stall_ns = c.stall.map_or(0, |(_, len)| len as u64 * MS);
+                let stall_ns = stall.map_or(0, |(_, len)| len as u64 * MS);
                 let handler_ns = c.handler_ms.map(|v| v as u64 * MS);
                 // a handler made of many short waits is itself held up by the stall (its remaining waits
                 // only start when the executor resumes); a single wait is not
@@ -223,7 +231,7 @@ impl Part for Calls {
     type Case = Case;
     fn name(&self) -> &'static str { "calls" }
     fn rule(&self) -> &'static str {
-        "two networks with generated outbound/inbound default timeouts (None, 1 ms..60 s) on both ends, link delay 1-20 ms, 1-6 RPCs each with a generated timeout header (absent, 0, ms values, sub-ms values, any u64, u64::MAX, overflowing, non-numeric, padded, empty, leading zeros) and handler duration 0..120 s or never, spent in one wait or in many waits of 2-50 ms each (a handler that keeps being polled), optionally an executor stall (the virtual clock jumps 0.1-3 s at once 0-300 ms into the call, so the handler's completion and a deadline can become due at the same poll; then only 'a handler needing less than both deadlines is answered normally' is decided); oracle = refmodel::deadline (min over optional values; expected outcome in {Success, RequestTimeout, caller timeout} and virtual completion time), handler dropped at arrival+Ds, never later than the local inbound default; cases within 2x link delay of a boundary accept either neighbour; non-trivial = a default and a (parsable) header both present and different, or an unparsable header with a default; distinct by case"
+        "two networks with generated outbound/inbound default timeouts (None, 1 ms..60 s) on both ends, a QUIC idle timeout of 60 s or (1 case in 4) of 0.8-4 s with keep-alives (shorter than many handlers and deadlines; it must not influence them), link delay 1-20 ms, 1-6 RPCs each with a generated timeout header (absent, 0, ms values, sub-ms values, any u64, u64::MAX, overflowing, non-numeric, padded, empty, leading zeros) and handler duration 0..120 s or never, spent in one wait or in many waits of 2-50 ms each (a handler that keeps being polled), optionally an executor stall (the virtual clock jumps 0.1-3 s at once 0-300 ms into the call, so the handler's completion and a deadline can become due at the same poll; then only 'a handler needing less than both deadlines is answered normally' is decided); oracle = refmodel::deadline (min over optional values; expected outcome in {Success, RequestTimeout, caller timeout} and virtual completion time), handler dropped at arrival+Ds, never later than the local inbound default; cases within 2x link delay of a boundary accept either neighbour; non-trivial = a default and a (parsable) header both present and different, or an unparsable header with a default; distinct by case"
     }
     fn strategy(&self, _t: Tier) -> BoxedStrategy<Case> {
         let handler = prop_oneof![
@@ -235,8 +243,8 @@ impl Part for Calls {
         // stalls: mostly "starts while the handler runs and ends after the deadline"
         let stall = prop_oneof![5 => Just(None), 2 => (0u16..300, 100u16..3000).prop_map(Some)];
         let call = (any::<bool>(), header(), handler, stall, prop::option::weighted(0.3, 2u8..50)).prop_map(|(from_a, header, handler_ms, stall, slice_ms)| Call { from_a, header, handler_ms, stall, slice_ms });
-        ((default_ms(), default_ms()), (default_ms(), default_ms()), 1u8..21, prop::collection::vec(call, 1..7))
-            .prop_map(|(a, b, link_delay_ms, calls)| Case { a, b, link_delay_ms, calls })
+        ((default_ms(), default_ms()), (default_ms(), default_ms()), 1u8..21, prop::collection::vec(call, 1..7), prop::option::weighted(0.25, 800u16..4_000))
+            .prop_map(|(a, b, link_delay_ms, calls, short_idle_ms)| Case { a, b, link_delay_ms, calls, short_idle_ms })
             .boxed()
     }
     fn run(&self, c: &Case, obs: &mut Obs) -> Result<(), Fail> { check(c, obs) }
